@@ -54,7 +54,12 @@ pub fn gen_name(g: &mut Gen, long: bool) -> N {
         ]);
     }
     let k = g.weighted(&[1, 3, 4, 3, 1, 1]);
-    N((0..k).map(|_| gen_label(g)).collect())
+    let mut n = N((0..k).map(|_| gen_label(g)).collect());
+    // a well-formed name: at most 255 octets
+    while n.wire_len() > 255 {
+        n.0.pop();
+    }
+    n
 }
 
 /// A pool of names so that names repeat inside one message.
